@@ -14,10 +14,12 @@ import (
 	"io/ioutil"
 	"os"
 	"path/filepath"
+	"reflect"
 	"sort"
 	"strconv"
 	"sync"
 	"time"
+	"unsafe"
 )
 
 // ---------------------------------------------------------------------------
@@ -426,4 +428,22 @@ func LoadReplay(path string, v interface{}) error {
 		return err
 	}
 	return json.Unmarshal(doc.Case, v)
+}
+
+// InitNilMaps gives every nil map field of the struct that ptr points to an
+// empty map (unexported fields included).  Harnesses that build a component
+// from a struct literal - to register its loop hook before the loop starts -
+// call it so that bookkeeping maps a constructor would have made exist.
+func InitNilMaps(ptr interface{}) {
+	v := reflect.ValueOf(ptr)
+	if v.Kind() != reflect.Ptr || v.Elem().Kind() != reflect.Struct {
+		return
+	}
+	e := v.Elem()
+	for i := 0; i < e.NumField(); i++ {
+		f := e.Field(i)
+		if f.Kind() == reflect.Map && f.IsNil() {
+			reflect.NewAt(f.Type(), unsafe.Pointer(f.UnsafeAddr())).Elem().Set(reflect.MakeMap(f.Type()))
+		}
+	}
 }
